@@ -16,7 +16,7 @@ class N(NodeMixin):
         self.i = i
 
     def __repr__(self):
-        return "N%d" % self.i
+        return "N%d<50%%s %%d%%>" % self.i  # a repr may contain any text, including % directives
 
     def __getattr__(self, name):
         # only reached when normal lookup fails: the lazily decided attribute
